@@ -27,7 +27,7 @@ KnownMods == {"ma", "mb", "mc", "md", "me", "mf", "mg"}
 Mods == KnownMods \cup {"mz"}              \* mz does not exist
 
 \* text executed once at the start of every session (a tiny prelude: two base dimensions/units)
-PreludeText == "dimension ZL\ndimension ZT\nunit zu: ZL\nunit zv: ZT"
+PreludeText == "dimension ZL\ndimension ZT\nunit zu: ZL\nunit zv: ZT\n@metric_prefixes\nunit zw: ZL\ndimension Scalar = 1\nfn value_of<T: Dim>(x: T) -> Scalar"
 
 \* ---------------------------------------------------------------- statements
 St(t, a, b, k, m) == [t |-> t, a |-> a, b |-> b, k |-> k, m |-> m]
@@ -42,6 +42,8 @@ FnCall(a, b)   == St("fncall", a, b, 0, "")      \* fn a() = b()           (earl
 Expr(a)        == St("expr", a, "", 0, "")       \* a + 0
 Call(a)        == St("call", a, "", 0, "")       \* a()
 AnsE           == St("anse", "", "", 0, "")      \* ans + 1
+QExpr          == St("qexpr", "", "", 0, "")     \* 4 kilozw / (2 zw): raw value 2 kilozw/zw, DISPLAYED (simplified) as 2000
+AnsVal         == St("ansval", "", "", 0, "")    \* value_of(ans): the magnitude of the last result as it was computed
 UnitDef(a)     == St("unitdef", a, "", 0, "")    \* unit a
 DimDef(a)      == St("dimdef", a, "", 0, "")     \* dimension Cap(a)
 StructDef      == St("structdef", "", "", 0, "") \* struct Sa { f: ZL }
@@ -62,6 +64,8 @@ Text(s) ==
     [] s.t = "expr"      -> s.a \o " + 1 - 1"
     [] s.t = "call"      -> s.a \o "()"
     [] s.t = "anse"      -> "ans + 1"
+    [] s.t = "qexpr"     -> "4 kilozw / (2 zw)"
+    [] s.t = "ansval"    -> "value_of(ans)"
     [] s.t = "unitdef"   -> "unit " \o s.a
     [] s.t = "dimdef"    -> "dimension " \o Cap(s.a)
     [] s.t = "structdef" -> "struct Sa { f: ZL }"
@@ -95,7 +99,9 @@ InitSt == [ imported |-> {},
             dims     |-> {},                       \* dimension registry (incl. those created by `unit x`)
             xdims    |-> {},                       \* dimensions defined with `dimension X`
             tns      |-> {},                       \* type namespace (dimensions, structs)
-            ans      |-> 0 ]                       \* last result (0 = none)
+            ans      |-> 0,                        \* last result (0 = none), as a scalar
+            ansmag   |-> 0 ]                       \* magnitude of the last result in the unit it was computed in
+                                                   \* (`ans` is the computed value, not its simplified display)
 
 \* ---------------------------------------------------------------- Resolve
 \* resolver.rs inlining_pass: depth first, a module is marked imported when entered
@@ -155,7 +161,8 @@ Stage2(w, s) ==
          IF ~IsVar(w, s.a) THEN Bad(w, "expr")
          ELSE IF s.t = "expr" THEN Ok([w EXCEPT !.hasans = TRUE]) ELSE Ok(w)
     [] s.t = "call" -> IF ~IsFn(w, s.a) THEN Bad(w, "expr") ELSE Ok([w EXCEPT !.hasans = TRUE])
-    [] s.t = "anse" -> IF ~w.hasans THEN Bad(w, "expr") ELSE Ok(w)
+    [] s.t \in {"anse", "ansval"} -> IF ~w.hasans THEN Bad(w, "expr") ELSE Ok(w)
+    [] s.t = "qexpr" -> Ok([w EXCEPT !.hasans = TRUE])
     [] s.t = "unitdef" ->
          IF Cap(s.a) \in w.dims THEN Bad(w, "registry") ELSE Ok([w EXCEPT !.dims = @ \cup {Cap(s.a)}])
     [] s.t = "dimdef" ->
@@ -174,9 +181,11 @@ Stage3(w, s) ==
     [] s.t = "fn"       -> Ok([w EXCEPT !.fnv[s.a] = s.k])
     [] s.t = "fnref"    -> Ok([w EXCEPT !.fnv[s.a] = w.val[s.b]])
     [] s.t = "fncall"   -> Ok([w EXCEPT !.fnv[s.a] = w.fnv[s.b]])
-    [] s.t = "expr"     -> Ok([w EXCEPT !.res = w.val[s.a], !.ans = w.val[s.a]])
-    [] s.t = "call"     -> Ok([w EXCEPT !.res = w.fnv[s.a], !.ans = w.fnv[s.a]])
-    [] s.t = "anse"     -> Ok([w EXCEPT !.res = w.ans + 1, !.ans = w.ans + 1])
+    [] s.t = "expr"     -> Ok([w EXCEPT !.res = w.val[s.a], !.ans = w.val[s.a], !.ansmag = w.val[s.a]])
+    [] s.t = "call"     -> Ok([w EXCEPT !.res = w.fnv[s.a], !.ans = w.fnv[s.a], !.ansmag = w.fnv[s.a]])
+    [] s.t = "anse"     -> Ok([w EXCEPT !.res = w.ans + 1, !.ans = w.ans + 1, !.ansmag = w.ans + 1])
+    [] s.t = "qexpr"    -> Ok([w EXCEPT !.res = 2000, !.ans = 2000, !.ansmag = 2])
+    [] s.t = "ansval"   -> Ok([w EXCEPT !.res = w.ansmag, !.ans = w.ansmag])
     [] s.t = "print"    -> Ok([w EXCEPT !.out = Append(@, w.val[s.a])])
     [] s.t = "asserteq" -> IF w.val[s.a] = s.k THEN Ok(w) ELSE Bad(w, "assert_eq")
     [] OTHER            -> Ok(w)
@@ -194,9 +203,10 @@ Fold3(w, ss) == IF ss = << >> THEN Ok(w)
 
 Work(st) == [imported |-> st.imported, units |-> st.units, others |-> st.others, vkind |-> st.vkind,
              val |-> st.val, fnv |-> st.fnv, dims |-> st.dims, xdims |-> st.xdims, tns |-> st.tns,
-             ans |-> st.ans, hasans |-> st.ans # 0, out |-> << >>, res |-> 0]
+             ans |-> st.ans, ansmag |-> st.ansmag, hasans |-> st.ans # 0, out |-> << >>, res |-> 0]
 Unwork(w) == [imported |-> w.imported, units |-> w.units, others |-> w.others, vkind |-> w.vkind,
-              val |-> w.val, fnv |-> w.fnv, dims |-> w.dims, xdims |-> w.xdims, tns |-> w.tns, ans |-> w.ans]
+              val |-> w.val, fnv |-> w.fnv, dims |-> w.dims, xdims |-> w.xdims, tns |-> w.tns, ans |-> w.ans,
+              ansmag |-> w.ansmag]
 
 \* roll-back: everything except (in the un-repaired rule) the resolver's import list
 Failed(st, imp, outcome, kind, out) ==
@@ -224,7 +234,7 @@ Submit(st, input) ==
 VarNames(st) == {i \in Ids : st.vkind[i] = "var"}
 FnNames(st)  == {i \in Ids : st.vkind[i] = "fn"}
 \* probes: hypothetical inputs evaluated on a copy of the session
-ProbeInputs == << <<Expr("za")>>, <<Expr("zb")>>, <<Expr("zc")>>, <<Call("za")>>, <<Call("zb")>>, <<Call("zc")>>, <<AnsE>>,
+ProbeInputs == << <<Expr("za")>>, <<Expr("zb")>>, <<Expr("zc")>>, <<Call("za")>>, <<Call("zb")>>, <<Call("zc")>>, <<AnsE>>, <<AnsVal>>,
                   <<Expr("ma_x")>>, <<Expr("mb_x")>>, <<Expr("mc_x")>>, <<Expr("md_x")>>, <<Expr("mf_x")>>,
                   <<Use("ma")>>, <<Use("mb")>>, <<Use("mc")>>, <<Use("md")>>, <<Use("me")>>, <<Use("mf")>>,
                   <<Use("mg")>>, <<Use("mz")>>,
